@@ -169,6 +169,15 @@ fn roundtrip_md(md: &PersistedMetadata) -> PersistedMetadata {
     serde_json::from_str(&text).expect("deserialize metadata")
 }
 
+/// Drops the receiver as a local of a frame that a panic unwinds (`std::thread::panicking()` is true
+/// inside its `Drop`).  `resume_unwind` does not run the panic hook.
+pub fn drop_while_unwinding(receiver: TracingEventReceiver) {
+    let _ = panic::catch_unwind(panic::AssertUnwindSafe(move || {
+        let _owned = receiver;
+        panic::resume_unwind(Box::new("host glue panicked"));
+    }));
+}
+
 /// Runs a history on the implementation. Returns one observation per executed step
 /// (execution stops after a panic).
 pub fn run_history(steps: &[Step], nonce: &str) -> Vec<Obs> {
@@ -178,6 +187,7 @@ pub fn run_history(steps: &[Step], nonce: &str) -> Vec<Obs> {
         let mut md = PersistedMetadata::default();
         let mut saved_spans = PersistedSpans::default();
         let mut receiver = TracingEventReceiver::default();
+        let mut drops = 0u32;
         for step in steps {
             match step {
                 Step::Recv(ev) => {
@@ -223,7 +233,14 @@ pub fn run_history(steps: &[Step], nonce: &str) -> Vec<Obs> {
                 }
                 Step::Drop => {
                     let mark = rec.mark();
-                    drop(receiver);
+                    // every second drop happens while a panic unwinds through the frame that owns the
+                    // receiver (a host whose glue code panics on a guest trap): the same roll-back is due
+                    drops += 1;
+                    if drops % 2 == 0 {
+                        drop_while_unwinding(receiver);
+                    } else {
+                        drop(receiver);
+                    }
                     let calls = rec.since(mark);
                     let mark = rec.mark();
                     receiver = TracingEventReceiver::new(md.clone(), saved_spans.clone(), LocalSpans::default());
